@@ -17,7 +17,7 @@ def build(bin_step, py_step, miri_step, fuzz_step):
     S["C06"] = [bin_step("c06"), bin_step("c06", release=True), dbg("c06"), fuzz_step("c06_split", 2000000), py_step("gen_deep")]
     S["C13"] = [bin_step("c13"), bin_step("c13", release=True), dbg("c13"), fuzz_step("c13_ops", 2000000), py_step("gen_deep")]
     S["C14"] = [bin_step("c13", prop="C14"), bin_step("c13", release=True, prop="C14"), dbg("c13", prop="C14"), fuzz_step("c13_ops", 2000000), py_step("gen_deep")]
-    S["C20"] = [bin_step("c20"), bin_step("c20", release=True), py_step("gen_concat"), py_step("gen_concat", tiers=("thorough",), release=True), py_step("gen_deep")]
+    S["C20"] = [bin_step("c20"), bin_step("c20", release=True), py_step("gen_concat"), py_step("gen_concat", release=True), py_step("gen_deep")]
     S["C11"] = [bin_step("c11"), bin_step("c11", release=True), py_step("gen_closure_exits"), py_step("gen_closure_exits", release=True), py_step("gen_collect"), py_step("gen_collect", release=True), miri_step("c11", tiers=("thorough",)), py_step("gen_closure_exits", tiers=("thorough",), miri=True)]
     S["C15"] = [bin_step("c11", prop="C15"), bin_step("c11", prop="C15", release=True), py_step("gen_destructure"), py_step("gen_destructure", miri=True, only_packed=True), py_step("gen_destructure", tiers=("thorough",), release=True), miri_step("c11", tiers=("thorough",)), py_step("gen_destructure", tiers=("thorough",), miri=True)]
     S["C19"] = [bin_step("c19"), bin_step("c19", release=True), py_step("gen_rebind"), py_step("gen_rebind", tiers=("thorough",), release=True)]
